@@ -93,6 +93,8 @@ def small_data(r, alphabet=3):
     c = r.random()
     if c < 0.1:
         return {}
+    if c < 0.16:
+        return {"app": "abcdefgh"[r.randrange(0, alphabet)], "title": r.choice([None, ""])}
     return {"app": "abcdefgh"[r.randrange(0, alphabet)]}
 
 
@@ -112,7 +114,7 @@ def meta(r, wild=True):
     m = {
         "type": r.choice(["currentwindow", "afkstatus", "web.tab.current", "тип", "t y p e"]),
         "client": r.choice(["aw-watcher-window", "aw-watcher-afk", "cliënt", "c"]),
-        "hostname": r.choice(["host1", "host2", "höst", "h"]),
+        "hostname": r.choice(["host1", "host2", "höst", "h", "Erik-Desktop.LAN"]),
         "created_us": (wild_ts(r) if wild else BASE_US + r.randrange(0, 10**9) * 1000) // 1000 * 1000,
         "off": offset(r),
     }
@@ -126,6 +128,7 @@ def meta(r, wild=True):
 
 BUCKET_IDS = ["b0", "b1", "b2", "b3"]
 UNICODE_BUCKET_IDS = ["aw-watcher-window_höst", "b/ü", "б2", "cafe\u0301 b 3"]  # the last one is not NFC-normalised
+GLOB_BUCKET_IDS = ["scratch[1]", "scratch1", "a?", "ab"]  # ids that read as fnmatch patterns of each other
 CASE_BUCKET_IDS = ["aw-watcher-afk_Laptop", "aw-watcher-afk_laptop", "AW-WATCHER-AFK_LAPTOP", "b0"]  # differ only in case
 
 
@@ -137,4 +140,6 @@ def bucket_ids(r, n, unicode_ok=False):
             pool = list(UNICODE_BUCKET_IDS)
         elif x < 0.5:
             pool = list(CASE_BUCKET_IDS)
+        elif x < 0.6:
+            pool = list(GLOB_BUCKET_IDS)
     return pool[:n]
